@@ -89,6 +89,19 @@ def generate(rng, tier):
             lines.append('sys.w %d %d' % (rng.randrange(0x8000, 0x9fff), rng.randrange(256)))
         lines += ['sys.w 65344 %d' % rng.choice([0x93, 0x83, 0xb3, 0x97]), 'sys.lcdtrace %d' % (L.FRAME * 2 + 300)]
         cases.append(('objs%d' % j, lines))
+    # the LCD keeps its schedule whatever the CPU does: STOP, HALT (through the real frame loop)
+    for j, prog in enumerate([[0x10, 0x00, 0x18, 0xfe], [0x76, 0x18, 0xfd], [0xf3, 0x76, 0x18, 0xfd]]):
+        lines = ['gb.newloop 0 0 0 0']
+        prog = [0x00] * rng.randrange(3, 60) + prog        # some NOPs first: the instruction must take effect in mid-frame
+        for i, b in enumerate(prog):
+            lines.append('gb.w 0 %d %d' % (0xc000 + i, b))
+        # the instruction executes inside the first frame, so a component that stops with the CPU falls behind by all but a
+        # few cycles of that frame (a whole frame would bring LY and the mode back to where they were)
+        lines += ['gb.cyc 0 %d' % rng.randrange(0, 5000), 'gb.set 0 1 2 3 4 5 0 6 7 57343 49152', 'gb.frames 0 1', 'gb.obs 0']
+        for _ in range(8):
+            lines += ['gb.cyc 0 %d' % rng.choice([1, 19, 20, 43, 114, 1000, 5000]), 'gb.obs 0']
+        lines += ['gb.frames 0 1', 'gb.obs 0']
+        cases.append(('cpu%d' % j, lines))
     info = dict(exhaustive=False,
                 input_distribution=dict(power_on_frames=frames, random_schedules=nrand, off_on_positions=n,
                                         cycles_total=sum(int(l.split()[1]) for c in cases for l in c[1]
